@@ -26,7 +26,7 @@ TOKENS = [
     '\\begin{itemize}', '\\end{itemize}', '\\begin{a}', '\\end{a}',
     '\\begin{verbatim}', '\\end{verbatim}', '\\begin{equation}',
     '\\end{equation}', '\\', 'é', '&', '#', '~', '{a }', '[a]',
-    '{verbatim }', '{ equation}', '\\endnote', '\\itemsep',
+    '{verbatim }', '{ equation}', '\\endnote', '\\itemsep', '\r\n', ' \r\n',
 ]
 # tokens that leave the C08/C16 input domain (NUL/DEL, bare signature cmds)
 HOSTILE_TOKENS = ['\x00', '\x7f', '\\def', '\\textbf', '\\section', '\\label',
